@@ -1253,4 +1253,131 @@ theorem x10_release_names_held_button (xcfg : InputXlate.Cfg) (hcb : xcfg.onMode
   refine ⟨held', ?_, hh⟩
   rw [hk, hg, he (Or.inr (by simp [Key.KnownKind, TERMKEY_MOUSE_RELEASE, TERMKEY_MOUSE_PRESS, TERMKEY_MOUSE_DRAG]))]
 
+open InputXlate in
+/-- **drag drop / stop consistent with the press, for a release that cannot name its button.**  With exactly button
+    `b` held (the button of the press that began the drag: `x10_gesture_holds_pressed_button`) and a drag in progress,
+    an X10 release — whatever the handlers do — logs DRAG_DROP first, then DRAG_STOP, then the RELEASE itself, all
+    carrying button `b`, then at most the note that no window claimed the release; and nothing is held afterwards. -/
+theorem x10_drag_release_consistent (cfg : WinInput.Cfg) (xcfg : InputXlate.Cfg)
+    (hcb : xcfg.onModereport = true ∧ xcfg.onDecrqss = true) (ts ts' : TSt) (hinv : MaskInv ts.held) (b : Nat)
+    (hb : heldButtons ts.held = [b]) (hdr : ts.st.tree.root.mouseDragging = true) (code line col : Nat)
+    (hr : code &&& 0xc3 = 3) (h : pushX10 cfg xcfg ts code line col = Out.ok ts') :
+    heldButtons ts'.held = [] ∧
+    ∃ newDrop newStop newRel tail, ts'.st.log = tail ++ newRel ++ newStop ++ newDrop ++ ts.st.log ∧
+      (∀ i ∈ newDrop, Carries (fun e => e.type = evDragDrop ∧ e.button = b) i) ∧
+      (∀ i ∈ newStop, Carries (fun e => e.type = evDragStop ∧ e.button = b) i) ∧
+      (∀ i ∈ newRel, Carries (fun e => e.type = evRelease ∧ e.button = b ∧ e.mod = x10Mods code) i) ∧
+      (∀ i ∈ tail, i = LogItem.unhandled) := by
+  obtain ⟨held', hg, hh⟩ := x10_release_names_held_button xcfg hcb ts.held hinv b hb code line col hr
+  unfold pushX10 at h
+  rw [hg] at h
+  simp only [deliver] at h
+  obtain ⟨s1, hA, h⟩ := out_bind_eq_ok.1 h
+  obtain ⟨s0, hB, hC⟩ := out_bind_eq_ok.1 hA
+  simp only [out_pure, Out.ok.injEq] at h hC
+  subst hC; subst h
+  refine ⟨hh, ?_⟩
+  unfold emitMouse at hB
+  obtain ⟨⟨s2, handled⟩, h2, h3⟩ := out_bind_eq_ok.1 hB
+  simp only [out_pure, Out.ok.injEq] at h3
+  obtain ⟨n1, n2, n3, hl, p1, p2, p3⟩ := drag_drop_stop_order cfg _ ts.st s2 _ handled h2 (by rfl) hdr
+  cases handled with
+  | true =>
+    simp only [if_true] at h3; subst h3
+    exact ⟨n1, n2, n3, [], by simpa using hl, p1, p2, p3, by simp⟩
+  | false =>
+    simp only [Bool.false_eq_true, if_false] at h3; subst h3
+    exact ⟨n1, n2, n3, [LogItem.unhandled], by simp [St.say, hl], p1, p2, p3, by simp⟩
+
+/-- Reports that may follow the press of button `p + 1` without changing what is held: drags of that button, and
+    turns of the wheel. -/
+def KeepsHeld (p code : Nat) : Prop :=
+  (code &&& 0xc3 = p ∧ code &&& 0x20 ≠ 0) ∨ ((code &&& 0xc3 = 64 ∨ code &&& 0xc3 = 65) ∧ code &&& 0x20 = 0)
+
+open InputXlate in
+theorem keepsHeld_spec (p : Nat) (hp : p < 3) (code line col : Nat) (hk : KeepsHeld p code) :
+    (Spec.keyEvents [p + 1] (x10Key code line col)).1 = [p + 1] := by
+  rcases hk with ⟨hc, hm⟩ | ⟨hw, hm⟩
+  · have he : x10Event code = TERMKEY_MOUSE_DRAG := by
+      unfold x10Event; simp [hc, hp, hm]
+    have hbt : x10Button code = (p : Int) + 1 := by unfold x10Button; simp [hc, hp]
+    unfold x10Key
+    rw [he, hbt]
+    have : ((p : Int) + 1).toNat = p + 1 := by omega
+    simp [Spec.keyEvents, TERMKEY_MOUSE_DRAG, TERMKEY_MOUSE_PRESS, this, Spec.insert]
+  · have he : x10Event code = TERMKEY_MOUSE_PRESS := by
+      unfold x10Event
+      rcases hw with hw | hw <;> simp [hw, hm]
+    have hbt : x10Button code ≥ 4 := by
+      unfold x10Button
+      rcases hw with hw | hw <;> simp [hw]
+    unfold x10Key
+    rw [he]
+    simp [Spec.keyEvents, hbt]
+
+open InputXlate in
+/-- **What is held during a drag is the button of the press that began it**: from a fresh terminal, after the press of
+    button `p + 1` (X10 code `p`, any modifiers) followed by any number of drags of that button and turns of the wheel,
+    `got_key` has returned every time and its record holds exactly that button. -/
+theorem x10_gesture_holds_pressed_button (xcfg : InputXlate.Cfg) (hcb : xcfg.onModereport = true ∧ xcfg.onDecrqss = true)
+    (p : Nat) (hp : p < 3) (c0 l0 k0 : Nat) (hc0 : c0 &&& 0xc3 = p ∧ c0 &&& 0x20 = 0)
+    (more : List (Nat × Nat × Nat)) (hm : ∀ r ∈ more, KeepsHeld p r.1) :
+    ∃ held evs, runKeys xcfg x10Fuel 0 (x10Key c0 l0 k0 :: more.map fun r => x10Key r.1 r.2.1 r.2.2) = .ok (held, evs) ∧
+      MaskInv held ∧ heldButtons held = [p + 1] := by
+  obtain ⟨held, evs, hrun, hinv, hh, _⟩ := runKeys_refines xcfg x10Fuel (by decide) hcb
+    (x10Key c0 l0 k0 :: more.map fun r => x10Key r.1 r.2.1 r.2.2) 0 maskInv_zero (by
+      intro k hk
+      rcases List.mem_cons.1 hk with rfl | hk
+      · exact x10Key_wf _ _ _
+      · obtain ⟨r, _, rfl⟩ := List.mem_map.1 hk; exact x10Key_wf _ _ _)
+  refine ⟨held, evs, hrun, hinv, ?_⟩
+  rw [hh, heldButtons_zero]
+  have hpress : (Spec.keyEvents [] (x10Key c0 l0 k0)).1 = [p + 1] := by
+    have he : x10Event c0 = TERMKEY_MOUSE_PRESS := by unfold x10Event; simp [hc0.1, hp, hc0.2]
+    have hbt : x10Button c0 = (p : Int) + 1 := by unfold x10Button; simp [hc0.1, hp]
+    unfold x10Key
+    rw [he, hbt]
+    have h4 : ¬ ((p : Int) + 1 ≥ 4) := by omega
+    have : ((p : Int) + 1).toNat = p + 1 := by omega
+    simp [Spec.keyEvents, h4, this, Spec.insert]
+  have hrest : ∀ (l : List (Nat × Nat × Nat)), (∀ r ∈ l, KeepsHeld p r.1) →
+      (Spec.run [p + 1] (l.map fun r => x10Key r.1 r.2.1 r.2.2)).1 = [p + 1] := by
+    intro l
+    induction l with
+    | nil => intro _; rfl
+    | cons r rest ih =>
+      intro hl
+      simp only [List.map_cons, Spec.run]
+      rw [keepsHeld_spec p hp _ _ _ (hl r (List.mem_cons_self ..))]
+      exact ih (fun x hx => hl x (List.mem_cons_of_mem _ hx))
+  simp only [Spec.run]
+  rw [hpress]
+  exact hrest more hm
+
+namespace Scenario
+
+/-- Two windows side by side, both claiming every mouse event (the reviewers' demonstration, scaled down). -/
+def twoPanes : Option St :=
+  build [opWin 0 ⟨0, 0, 3, 8⟩, opWin 0 ⟨3, 0, 3, 8⟩, opBind 1 .mouse [claim], opBind 2 .mouse [claim]] (newSt 6 8)
+
+/-- The X10 reports of a history, pushed one after the other: the handler calls (window, event type, button), oldest first. -/
+def x10Calls (reports : List (Nat × Nat × Nat)) : Option (List (WinTree.Id × Int × Int)) :=
+  twoPanes.bind fun s =>
+    let r := reports.foldl (fun (acc : Option TSt) rp => acc.bind fun ts =>
+      match pushX10 Cfg.repaired {} ts rp.1 rp.2.1 rp.2.2 with
+      | .ok ts' => some ts'
+      | _ => none) (some { st := s })
+    r.map fun ts => (callsOf ts.st.log).filterMap fun i => match i with | .call _ w _ _ _ e => some (w, e.type, e.button) | _ => none
+
+end Scenario
+
+open Scenario in
+/-- Non-vacuity (the reviewers' demonstration): the wheel is turned over window 1, then button 3 is pressed in window
+    1, dragged inside it and on into window 2, and released there with the button-less X10 release: WHEEL up to 1;
+    PRESS 3, DRAG_START 3 and DRAG 3 to 1; DRAG 3 to 2 and DRAG_OUTSIDE 3 to 1; DRAG_DROP 3 to 2, DRAG_STOP 3 to 1,
+    RELEASE 3 to 2 — every synthesised event carries the button of the press, nothing is reported twice. -/
+example : x10Calls [(64, 1, 2), (2, 1, 2), (34, 2, 2), (34, 4, 2), (3, 4, 2)] =
+    some [(1, 4, 1), (1, 1, 3), (1, 257, 3), (1, 2, 3), (2, 2, 3), (1, 258, 3), (2, 259, 3), (1, 260, 3), (2, 3, 3)] := by
+  decide +kernel
+
 end Tickit.Props.C14
